@@ -360,6 +360,21 @@ func c12GenSock(r *mon.Rand) *c12Sock {
 		s.Saddr = logenc.SockaddrInet6(ip, s.Port, s.Flow, s.Scope)
 	default:
 		s.Family = "unix"
+		if r.Chance(1, 12) {
+			// unnamed / autobind / abstract sockets: the path is empty (nothing before the first NUL)
+			s.Path = []byte{}
+			switch r.Intn(3) {
+			case 0:
+				s.Saddr = "0100" // sa_family only: what the kernel logs for an unnamed socket
+			case 1:
+				s.Junk = r.Bytes(r.Range(0, 20))
+				s.Saddr = logenc.SockaddrUnix(s.Path, s.Junk)
+			default:
+				s.Junk = append([]byte("abstract-"), r.Bytes(r.Range(0, 12))...) // abstract namespace: NUL + name
+				s.Saddr = logenc.SockaddrUnix(s.Path, s.Junk)
+			}
+			return s
+		}
 		n := r.Range(1, 107)
 		if r.Chance(1, 10) {
 			n = 108
